@@ -129,6 +129,8 @@ Definition hex_encode_lower (bs : list N) : list N :=
 (* big-endian value of a byte list *)
 Definition be_val (bs : list N) : N := fold_left (fun a b => 256 * a + b) bs 0.
 
+Definition be4 (x : N) : list N := [(x / 16777216) mod 256; (x / 65536) mod 256; (x / 256) mod 256; x mod 256].
+
 (* ---- base64, standard alphabet, padded, non-strict (encoding/base64.StdEncoding) ---- *)
 Definition b64_char (v : N) : N :=
   if v <? 26 then 65 + v
